@@ -4,6 +4,7 @@ package wat2c
 
 import (
 	"bytes"
+	"fmt"
 
 	"wa-lang.org/wa/internal/wasm"
 	"wa-lang.org/wa/internal/wat/ast"
@@ -50,6 +51,8 @@ type wat2cWorker struct {
 	use_R_u32 bool // R_u32
 	use_R_u16 bool // R_u16
 	use_R_u8  bool // R_u8
+
+	anonLabelId int // 为没有名字的 block/loop/if 生成 C 标签
 
 	trace bool // 调试开关
 }
@@ -131,4 +134,10 @@ func (p *wat2cWorker) BuildCode() (code, header []byte, err error) {
 	bodyCode := bytes.ReplaceAll(c.Bytes(), []byte("\n\n\n"), []byte("\n\n"))
 
 	return bodyCode, headerCode, nil
+}
+
+// 没有名字的 block/loop/if 也可能是 br/br_if/br_table 数字索引的目标, 需要一个 C 标签
+func (p *wat2cWorker) genAnonLabel() string {
+	p.anonLabelId++
+	return fmt.Sprintf("anon.%d", p.anonLabelId)
 }
